@@ -384,6 +384,47 @@ theorem scale_f64_mono (h2 : LogLikeF64 L2) (h10 : LogLikeF64 L10) (k : Scaler) 
 
 end
 
+/-! ### a stand-in logarithm (non-vacuity of `LogLikeF64`), and the linear scaler without any assumption -/
+
+/-- `x ↦ x - 1` (rounded) satisfies `LogLikeF64` -/
+theorem logLikeF64_sub_one : LogLikeF64 (fun x => F64.sub x F64.one) := by
+  have f1 : F64.one.isFinite = true := by decide
+  have v1 : F64.one.toRat = 1 := by decide +kernel
+  refine ⟨?_, ?_, by decide +kernel⟩
+  · intro x fx h1
+    show (F64.sub x F64.one).isFinite = true
+    rw [F64.sub_finite fx f1, v1]
+    exact (round_between F64.rep_zero ⟨x, fx, rfl⟩ (by grind) (by grind) _).1
+  · intro x y fx fy h1 hxy
+    show (F64.sub x F64.one).toRat ≤ (F64.sub y F64.one).toRat
+    rw [F64.sub_finite fx f1, F64.sub_finite fy f1, v1]
+    have a := (round_between F64.rep_zero ⟨x, fx, rfl⟩ (q := x.toRat - 1) (by grind) (by grind) (x.sign && !F64.one.sign)).1
+    have b := (round_between F64.rep_zero ⟨y, fy, rfl⟩ (q := y.toRat - 1) (by grind) (by grind) (y.sign && !F64.one.sign)).1
+    exact round_mono (by grind) _ _ a b
+
+/-- the linear scaler never calls a logarithm: its `Scale` is the same function whatever `math.Log*`/`Pow` are -/
+theorem scale_linear_indep (L2 L10 P2 P10 L2' L10' P2' P10' : F64 → F64) (v mn mx : Int) :
+    scale (f64Arith L2 L10 P2 P10) .linear v mn mx = scale (f64Arith L2' L10' P2' P10') .linear v mn mx := rfl
+
+theorem scale_linear_f64_unit {L2 L10 P2 P10 : F64 → F64} {v mn mx : Int} (hv : I64 v) (hmn : I64 mn) (hmx : I64 mx) :
+    UnitF64 (scale (f64Arith L2 L10 P2 P10) .linear v mn mx) := by
+  rw [scale_linear_indep L2 L10 P2 P10 (fun x => F64.sub x F64.one) (fun x => F64.sub x F64.one) P2 P10]
+  exact scale_f64_unit logLikeF64_sub_one logLikeF64_sub_one .linear hv hmn hmx
+
+theorem scale_linear_f64_mono {L2 L10 P2 P10 : F64 → F64} {v v' mn mx : Int} (hv : I64 v) (hv' : I64 v') (hmn : I64 mn) (hmx : I64 mx) (h : v ≤ v') :
+    (scale (f64Arith L2 L10 P2 P10) .linear v mn mx).toRat ≤ (scale (f64Arith L2 L10 P2 P10) .linear v' mn mx).toRat := by
+  rw [scale_linear_indep L2 L10 P2 P10 (fun x => F64.sub x F64.one) (fun x => F64.sub x F64.one) P2 P10,
+    scale_linear_indep L2 L10 P2 P10 (fun x => F64.sub x F64.one) (fun x => F64.sub x F64.one) P2 P10 v']
+  exact scale_f64_mono logLikeF64_sub_one logLikeF64_sub_one .linear hv hv' hmn hmx h
+
+/-- a unit float in the IEEE order: not NaN, between `0.0` and `1.0` -/
+theorem UnitF64.order {u : F64} (h : UnitF64 u) :
+    u.isNaN = false ∧ F64.le (F64.ofInt 0) u = true ∧ F64.le u (F64.ofInt 1) = true := by
+  obtain ⟨f, a, b⟩ := h
+  refine ⟨not_nan_of_finite f, ?_, ?_⟩
+  · rw [le_iff_toRat_le ofInt_zero_props.1 f, ofInt_zero_props.2]; exact a
+  · rw [le_iff_toRat_le f ofInt_one_props.1, ofInt_one_props.2]; exact b
+
 /-! ### `int(u * float64(n))` for a unit float -/
 
 /-- the product `u * float64(n)` (one rounding) of a unit float and an integer `0 ≤ n ≤ 2^53`: finite, in `[0, n]` -/
